@@ -10,9 +10,9 @@ patch="/verif/seeded/$sid/patch.diff"
 cd /repo || exit 2
 if ! git diff --quiet; then echo "/repo has uncommitted changes; refusing"; exit 2; fi
 if ! git apply --whitespace=nowarn "$patch" 2>/dev/null && ! git apply --3way --whitespace=nowarn "$patch" 2>/dev/null; then
-  echo "$sid: patch does not apply to current /repo HEAD"; git checkout -- . ; exit 2
+  echo "$sid: patch does not apply to current /repo HEAD"; git checkout HEAD -- . ; exit 2
 fi
-trap 'git -C /repo checkout -- . ; git -C /repo clean -fdq -- test pkg server api client 2>/dev/null' EXIT
+trap 'git -C /repo checkout HEAD -- . ; git -C /repo clean -fdq -- test pkg server api client 2>/dev/null' EXIT
 cd /verif
 for c in "$@"; do
   out=$(VERIF_SEED="${VERIF_SEED:-1}" ./check "$c" "$tier" 2>&1); rc=$?
